@@ -21,7 +21,7 @@ CRITS = [("==", 0), ("==", 1), ("!=", 0), ("<", 2), (">=", 1)]
 def forest_defns(ncont, widths, rng=None, sample=None, header_names=None):
     """All container forests on ncont containers (parent index < child index), every abstract-flag subset, one own parameter per
     container (width from `widths`), one reusable nested container N placed before / after / not at all in each non-root container,
-    one or two restriction criteria per inheritance edge over parameters decoded by ancestors."""
+    none, one or two restriction criteria per inheritance edge over parameters decoded by ancestors."""
     names = [f"C{i}" for i in range(ncont)]
     out = []
     parents_space = list(itertools.product(*[range(i) for i in range(1, ncont)]))
@@ -39,6 +39,7 @@ def forest_defns(ncont, widths, rng=None, sample=None, header_names=None):
                         for (op, n) in CRITS:
                             opts.append([cmp(f"P{parent[i]}", op, n)])
                         opts.append([cmp(f"P{parent[i]}", ">=", 1), cmp("P0", "!=", 1)])
+                        opts.append([])        # a BaseContainer without RestrictionCriteria: the child inherits unconditionally
                         crit_choices.append(opts)
                     for cs in itertools.product(*crit_choices):
                         out.append((parent, abst, nest, ws, cs))
